@@ -28,6 +28,9 @@ use crate::verif_hooks::HashMap;
 #[cfg(not(melda_verif))]
 use std::collections::HashMap;
 use std::num::NonZeroUsize;
+#[cfg(melda_verif_sched)]
+use crate::verif_sched::{Arc, Mutex, RwLock};
+#[cfg(not(melda_verif_sched))]
 use std::sync::{Arc, Mutex, RwLock};
 
 pub struct DataStorage {
